@@ -18,6 +18,7 @@ def P(qr, qw, tr, tw, **kw):
 PLAN = {
     "C01": P(6000, 75, 200000, 900),
     "C02": P(5000, 75, 150000, 900),
+    "C08": P(2500, 90, 60000, 900),
     "C07": P(1500, 100, 30000, 1200, chunk=150),
     "C06": P(1500, 100, 40000, 1200, chunk=150),
     "C04": P(1500, 100, 40000, 1200, chunk=150),
@@ -25,6 +26,11 @@ PLAN = {
 }
 
 LEVELS = {
+    "C08": {"level": "exploration", "rule": RULE,
+            "text": "(a) seeded histories of set / overwrite / delete / get / list / prefix-filtered list over 2-3 repositories with prefix-related names and label names from the documented alphabet plus hostile ones, checked step by step against a map model, with the acceptance rule (an accepted name must resolve and every listing must still work) and the per-event invariant that a label operation writes only its own label object and never the metadata store; (b) 2-3 clients running set/get/delete on one label concurrently under sampled interleavings, the recorded history (event-sequence stamps) checked for linearizability against a register-with-delete model with porcupine",
+            "note": "porcupine 'unknown' (time-out) is counted, never reported; trusts simstore (optionally with object versioning)",
+            "components": {"real": ["pkg/core label set/get/delete/list", "pkg/model label paths"], "stub": STUB + ["bundles are seeded descriptors (labels never read bundle content)"]},
+            "assumptions": ["histories of at most 10 steps, 3 clients x 4 operations"]},
     "C07": {"level": "exploration", "rule": RULE,
             "text": "seeded exploration of metadata populations (1-5 repositories with prefix-related names, 0..3000 bundles incl. leftovers of interrupted uploads, labels, diamonds with 0..150 splits whose generations hold 0..60 index files, abandoned generations) listed through List*/List*Apply with page sizes 1..2048, list concurrency 1..32, short pages and (separately) transient store errors; every listing is compared with the model: each object once, nothing foreign, bundles ascending by id, diamonds and splits by start time",
             "note": "objects are seeded with the real yaml.Marshal(model.*) at the real model.GetArchivePath* keys; repos/labels order is not asserted (usage docs state none); trusts simstore's listing contract (lexicographic, exact prefix, token = next key)",
